@@ -1,6 +1,7 @@
 """C08 -- checkpointing (serialise / deserialise) is a stuttering step of the composed spec."""
 import json
 from vlib import *
+from texvm import texvm_part
 
 LEVEL = "model_checking"
 DEVS = {"gdef-ignores-negative-globaldefs": "Trace_TexGroups_dev.cfg"}
@@ -93,6 +94,8 @@ def run(ctx):
         "\\globaldefs) inside 0..10 open groups",
         "file system, terminal and the font-prefix registration are re-attached after deserialisation (not serialised by design)",
     ]
+    # ---- whole programs of the composed model, cut into two lines with a checkpoint in between --------
+    texvm_part(ctx, 5000 if ctx.quick else 60000, 808, name="TexVM.whole_programs_checkpointed", cut=True)
 
 
 def selftest(ctx):
